@@ -296,13 +296,27 @@ class SimFS:
     def replace(self, src, dst, **kw):
         d = self._seam('replace', dst, src=os.fspath(src))
         spar, sname = self.parent(src)
+        dpar, dname = self.parent(dst)          # both parents are resolved before the source entry
         n = spar.children.get(sname)
         if n is None:
             raise _enoent(src)
-        dpar, dname = self.parent(dst)
         if not (spar.mode & 0o200 and dpar.mode & 0o200):
             raise _eacces(dst)
+        if n.is_dir:
+            stack = [n]
+            while stack:                        # a directory cannot be moved into itself
+                x = stack.pop()
+                if x is dpar:
+                    raise _err(errno.EINVAL, dst)
+                stack.extend(c for c in x.children.values() if c.is_dir)
         old = dpar.children.get(dname)
+        if old is not None and old is not n and old.is_dir:
+            stack = [old]
+            while stack:                        # the target is an ancestor of the source
+                x = stack.pop()
+                if x is spar:
+                    raise _err(errno.ENOTEMPTY, dst)
+                stack.extend(c for c in x.children.values() if c.is_dir)
         if old is not None and old is not n:
             if old.is_dir and not n.is_dir:
                 raise _err(errno.EISDIR, dst, IsADirectoryError)
